@@ -443,7 +443,7 @@ def main(args):
     rep.assumptions = ASSUMPTIONS
     rep.bounds = {'caches': ['stdnum.eu.vat._country_modules', 'stdnum.vatin._country_modules', 'stdnum.iban._country_modules', 'stdnum.numdb._open_databases'],
                   'alias_consumers': ['%s.%s' % (c[0], c[1]) for c in consumers], 'threads': [2, 3]}
-    deadline = time.time() + (330 if tier == 'quick' else common.THOROUGH_S)
+    deadline = time.time() + (common.QUICK_S if tier == 'quick' else common.THOROUGH_S)
 
     def progress(done, total, res):
         if args.verbose:
